@@ -7,6 +7,7 @@
    whose handler still holds a sink. *)
 From Coq Require Import List NArith ZArith Bool.
 From JV Require Import Model.AcceptSteps Gen.AcceptOrderGen Model.TableOps Gen.TableOpsGen Model.SubBook Proofs.SubBookFacts Proofs.SubBookThreadFacts.
+From JV Require Import Gen.SubLimiterGen Proofs.SubBookConnFacts.
 Import ListNotations.
 
 Theorem C06_unsubscribe_truth_table : forall caps base meth tr c cn req t, let s := fst (reach caps base meth tr) in nth_error (conns s) c = Some cn -> c_open cn = true -> stopped s = false -> exists r, snd (step s (UnsubscribeCall c req t)) = [OUnsubAnswer c req t r] /\ (r = true <-> active_here s c t) /\ (exists cn', nth_error (conns (fst (step s (UnsubscribeCall c req t)))) c = Some cn' /\ sent cn' = sent cn ++ [FUnsub req r]).
@@ -95,3 +96,32 @@ Print Assumptions C06_trylock_guard_refuted.
 (* non-vacuity of the thread-level alphabet on the generated record: a contended drop of the last sink removes the entry *)
 Example C06_contended_drop_witness : let r := reach_c [1] 1000 0 trylock_witness in table (fst r) = [] /\ snd (step_c (fst r) (UnsubscribeCall 0 2 1000, true)) = [OUnsubAnswer 0 2 1000 false] /\ snd (step_c (fst r) (SubscribeCall 0 3, true)) = [OHandler 1 0 3].
 Proof. vm_compute. repeat split. Qed.
+
+(* ---- the cap is per CONNECTION, whatever entry point assembled the server (`Server::start` or the tower service of
+   `ServerBuilder::to_service_builder()`; engine subhist runs every two-connection family under both, script token E).
+   `admitted o`: the subscribe call reached the handler.  `foreign_block c s mid`: every event of mid, in the state in which
+   it runs, is a call / writer step / drop of ANOTHER connection or a handler-side event of a subscription of another
+   connection (never the global ServerStop).
+   First conjunct: ANY two histories -- any caps and any events on the other connections, inserted or removed anywhere --
+   that leave connection c open, not stopped, with the same cap and the same OWN live count decide a subscribe on c alike:
+   admitted iff the own count is below the cap, otherwise the -32006 refusal.  Second conjunct: a block of events of other
+   connections in front of the subscribe (put in, or taken out) moves neither c's record, nor its live count, nor the decision.
+   (Handles are global, so a block inserted in the middle renumbers what follows it: that case is the first conjunct.) ---- *)
+Theorem C06_cap_is_per_connection : (forall caps1 base1 meth1 tr1 caps2 base2 meth2 tr2 c cn1 cn2 req, let s1 := fst (reach caps1 base1 meth1 tr1) in let s2 := fst (reach caps2 base2 meth2 tr2) in nth_error (conns s1) c = Some cn1 -> nth_error (conns s2) c = Some cn2 -> c_open cn1 = true -> c_open cn2 = true -> stopped s1 = false -> stopped s2 = false -> c_cap cn1 = c_cap cn2 -> count_live s1 c = count_live s2 c -> admitted (snd (step s1 (SubscribeCall c req))) = admitted (snd (step s2 (SubscribeCall c req))) /\ (admitted (snd (step s1 (SubscribeCall c req))) = true <-> count_live s1 c < c_cap cn1) /\ (admitted (snd (step s1 (SubscribeCall c req))) = false <-> snd (step s1 (SubscribeCall c req)) = [ORefused c req])) /\ (forall caps base meth tr mid c req, let s := fst (reach caps base meth tr) in let s' := fst (reach caps base meth (tr ++ mid)) in stopped s = false -> foreign_block c s mid -> nth_error (conns s') c = nth_error (conns s) c /\ stopped s' = false /\ count_live s' c = count_live s c /\ admitted (snd (step s' (SubscribeCall c req))) = admitted (snd (step s (SubscribeCall c req)))).
+Proof. exact cap_is_per_connection. Qed.
+Print Assumptions C06_cap_is_per_connection.
+
+(* WHERE the code creates the limiter, read from server/src on every check (tools/translators/sub_limiter.py): every
+   `BoundedSubscriptions::new(` of the server crate sits in code that runs once per WebSocket connection
+   (TowerServiceNoHttp::call's upgrade branch, ws::connect) and every RpcServiceCfg::CallsAndSubscriptions creates its
+   limiter on the spot; a limiter created in a builder / shared struct, or handed in as a clone, is a translation error *)
+Theorem C06_limiter_created_per_connection : sub_limiter_scope = PerConnection /\ Forall (fun site => snd site = PerConnection) sub_limiter_sites.
+Proof. exact limiter_created_per_connection. Qed.
+Print Assumptions C06_limiter_created_per_connection.
+
+(* non-vacuity, caps [1; 1]: A (connection 0) is full; B's whole life cycle is a foreign block for A and A is still refused;
+   B, holding nothing, is admitted although A is full; after A's own subscription ended A is admitted again *)
+Definition ex_two_conns_mid : list act := [SubscribeCall 1 2; Accept1 1; Accept2 1; WriterStep 1; UnsubscribeCall 1 3 1001; DropSink 1 0; SubscribeCall 1 4; SubscribeCall 1 5].
+
+Example C06_per_connection_witness : let s := fst (reach [1; 1] 1000 0 [SubscribeCall 0 1]) in let s' := fst (reach [1; 1] 1000 0 ([SubscribeCall 0 1] ++ ex_two_conns_mid)) in foreign_block 0 s ex_two_conns_mid /\ snd (reach [1; 1] 1000 0 ([SubscribeCall 0 1] ++ ex_two_conns_mid)) = [OHandler 0 0 1; OHandler 1 1 2; OAck; OAccept 1 true; OFrameOut 1 (FSubOk 2 1001); OUnsubAnswer 1 3 1001 true; OAck; OHandler 2 1 4; ORefused 1 5] /\ admitted (snd (step s (SubscribeCall 0 9))) = false /\ admitted (snd (step s' (SubscribeCall 0 9))) = false /\ count_live s' 0 = 1 /\ count_live s' 1 = 1 /\ admitted (snd (step s (SubscribeCall 1 9))) = true /\ admitted (snd (step (fst (step s' (Reject 0 7))) (SubscribeCall 0 9))) = true.
+Proof. vm_compute. repeat split; intro H; discriminate H. Qed.
